@@ -189,7 +189,7 @@ case("c07-keep-let", "keep", ["C07"], [(PW, "Ok(self.enforce(s1.as_ref())? == se
 case("c16-atomic-counter", "break", ["C16"], [(NK, "use std::borrow::Cow;", "use std::borrow::Cow;\nuse std::sync::atomic::{AtomicUsize, Ordering};\n\nstatic ROUNDS: AtomicUsize = AtomicUsize::new(0);"), (NK, "        stabilize(s, |s| self.apply_enforce_rules(s))", "        if ROUNDS.fetch_add(1, Ordering::Relaxed) > 1_000_000 {\n            return self.apply_enforce_rules(s);\n        }\n        stabilize(s, |s| self.apply_enforce_rules(s))")], "after a million calls enforcement stops iterating: history-dependent", expect_key=["effects", "no-hidden-state"])
 case("c16-field-new-vs-default", "break", ["C16"], [(NK, "pub struct Nickname(FreeformClass);", "pub struct Nickname(FreeformClass, u8);"), (NK, "        Self(FreeformClass::default())", "        Self(FreeformClass::default(), 1)")], "new() and default() (the static form) build different values", expect_key=["single-valued"])
 case("c16-fast-prepare-enforces", "break", ["C16"], [(NK, "        get_nickname_profile().prepare(s)", "        get_nickname_profile().enforce(s)")], "static form of prepare calls enforce (repository tests may notice)", expect_key=["fast-invocation"])
-case("c16-thread-local-memo", "break", ["C16"], [(PROF + "common.rs", "pub const SPACE: char = '\\u{0020}';", "pub const SPACE: char = '\\u{0020}';\n\nthread_local! {\n    static LAST_WAS_UPPER: std::cell::Cell<bool> = const { std::cell::Cell::new(false) };\n}"), (PROF + "common.rs", "    match s.find(char::is_uppercase) {\n        None => Ok(s),", "    match s.find(char::is_uppercase) {\n        None if !LAST_WAS_UPPER.with(|c| c.replace(false)) => Ok(s),\n        None => Ok(s.to_lowercase().into()),")], "per-thread memo changes behaviour of the next call")
+case("c16-thread-local-memo", "break", ["C16"], [(PROF + "common.rs", "pub const SPACE: char = '\\u{0020}';", "pub const SPACE: char = '\\u{0020}';\n\nthread_local! {\n    static LAST_WAS_UPPER: std::cell::Cell<bool> = const { std::cell::Cell::new(false) };\n}"), (PROF + "common.rs", "    match s.find(|c: char| c.to_lowercase().ne(std::iter::once(c))) {\n        None => Ok(s),", "    match s.find(|c: char| c.to_lowercase().ne(std::iter::once(c))) {\n        None if !LAST_WAS_UPPER.with(|c| c.replace(false)) => Ok(s),\n        None => Ok(s.to_lowercase().into()),")], "per-thread memo changes behaviour of the next call")
 case("c16-clock", "break", ["C16"], [(PW, "        let s = self.prepare(s)?;\n        let s = self.additional_mapping_rule(s)?;", "        let s = self.prepare(s)?;\n        if std::time::SystemTime::now().duration_since(std::time::UNIX_EPOCH).map(|d| d.as_secs() % 86400 == 0).unwrap_or(false) {\n            return Ok(s);\n        }\n        let s = self.additional_mapping_rule(s)?;")], "clock-dependent result")
 case("c16-refcell-profile", "break", ["C16"], [(PW, "pub struct OpaqueString(FreeformClass);", "pub struct OpaqueString(FreeformClass, std::marker::PhantomData<std::cell::Cell<u8>>);"), (PW, "        Self(FreeformClass::default())", "        Self(FreeformClass::default(), std::marker::PhantomData)")], "profile no longer Sync: the lazy static form would not even build — and the type rule names it")
 case("c16-keep-const-table", "keep", ["C16"], [(PROF + "common.rs", "pub const SPACE: char = '\\u{0020}';", "pub const SPACE: char = '\\u{0020}';\n\n#[allow(dead_code)]\nstatic ASCII_SPACES: [char; 2] = [' ', '\\t'];")], "an immutable Freeze static is not hidden state")
